@@ -775,7 +775,20 @@ def register(M):
 
     @meth(Vec, 'astype')
     def _v_astype(interp, v, args, kw, node):
-        return astype(interp, v, kwarg(args, kw, 0, 'dtype'), node)
+        if 'casting' in kw or kw.get('subok', True) is not True or kw.get('order', 'K') not in ('K', 'C', 'A', 'F'):
+            raise AnalysisError('astype(casting= / subok=False) not modelled', node)
+        dt = kwarg(args, kw, 0, 'dtype')
+        if len(args) > 1:
+            raise AnalysisError('astype with positional order / casting arguments not modelled', node)
+        copy = kw.get('copy', True)
+        if copy is not True and copy is not False:
+            raise AnalysisError('astype(copy=) with a non-boolean not modelled', node)
+        if copy is False and v.kind in ('nd', 'ma') and v.sel_mask is None:
+            # library fact: astype(t, copy=False) hands back the array itself when it already has dtype t (no copy: stores show through)
+            code, unit = parse_dtype(interp, dt, node)
+            if code == v.dtype and (code not in ('M8', 'm8') or unit in (None, 'generic') or unit == v.unit) and not v.narrow:
+                return v
+        return astype(interp, v, dt, node)
 
     @meth(Sc, 'astype')
     def _s_astype(interp, v, args, kw, node):
@@ -825,6 +838,9 @@ def register(M):
 
     @ext('numpy.array')
     def _np_array(interp, args, kw, node):
+        if kw.get('copy', True) is not True or kw.get('subok', False) is not False or kw.get('ndmin', 0) not in (0, 1) or kw.get('order', 'K') not in ('K', 'C', 'A', 'F') \
+                or kw.get('like') is not None:
+            raise AnalysisError('np.array(copy=False / subok=True / ndmin>1) not modelled', node)
         src = args[0] if args else kw.get('object', kw.get('a'))
         res = to_array(interp, src, node)
         dt = kwarg(args, kw, 1, 'dtype')
@@ -932,7 +948,12 @@ def register(M):
                 val = kwarg(args, kw, 1, 'fill_value')
             dt = kw.get('dtype', args[2] if (value is FILLARG and len(args) > 2) else (args[1] if (value is not FILLARG and len(args) > 1) else None))
             dtype = dt if dt is not None else DType(proto.dtype, proto.unit)
-            kind = kind_override or ('ma' if proto.kind == 'ma' else 'nd')
+            if kw.get('shape') is not None or kw.get('order', 'K') not in ('K', 'C', 'A', 'F'):
+                raise AnalysisError('*_like(shape=) not modelled', node)
+            subok = kw.get('subok', True)
+            if subok is not True and subok is not False:
+                raise AnalysisError('*_like(subok=) with a non-boolean not modelled', node)
+            kind = kind_override or ('ma' if proto.kind == 'ma' and subok else 'nd')
             return alloc(interp, len(proto), val, dtype, kind, node)
         return f
     FILLARG = object()
@@ -949,6 +970,9 @@ def register(M):
         """np.ma.array(data, mask=...) — default copy=False: shares the data buffer (row 1)"""
         data = kwarg(args, kw, 0, 'data')
         mask = kw.get('mask', False)
+        if kw.get('keep_mask', True) is not True or kw.get('hard_mask') not in (None, False) or kw.get('shrink', True) is not True \
+                or kw.get('subok', True) is not True or kw.get('ndmin', 0) not in (0, 1) or kw.get('order') not in (None, 'K', 'C', 'A', 'F'):
+            raise AnalysisError('np.ma.array(keep_mask=False / hard_mask=True / shrink=False ...) not modelled', node)
         if isinstance(data, Vec2):
             return Vec2([_ma_array(interp, [r], {}, node) for r in data.rows], data.width, 'ma', data.dtype)
         if isinstance(data, Vec):
@@ -989,12 +1013,16 @@ def register(M):
     # array methods
     @meth(Vec, 'flatten', 'copy', 'compressed')
     def _flatten(interp, v, args, kw, node):
+        if kw.get('order', args[0] if args and isinstance(args[0], str) else 'C') not in ('C', 'K', 'A', 'F'):
+            raise AnalysisError('flatten / copy (order=) form not modelled', node)
         if node is not None and getattr(node, 'func', None) is not None and getattr(node.func, 'attr', '') == 'compressed':
             return Vec.fresh([El(e.d, False) for e in v.els() if not m_conc(e.m, node, 'compressed()')], kind='nd', dtype=v.dtype, unit=v.unit)
         return v.copy()
 
     @meth(Vec, 'ravel', 'squeeze')
     def _ravel(interp, v, args, kw, node):
+        if kw.get('order', args[0] if args and isinstance(args[0], str) else 'C') not in ('C', 'K', 'A', 'F') or 'axis' in kw:
+            raise AnalysisError('ravel / squeeze with these arguments not modelled', node)
         return v.view(list(v.idx))
 
     @meth(Vec, 'view')
@@ -1165,10 +1193,19 @@ def register(M):
             return to_array(interp, v, node)
         return None
 
-    def unary_ufunc(fn_expr, ma_operator=False, out_dtype=None):
-        def f(interp, args, kw, node):
+    def unary_ufunc(fn_expr, ma_operator=False, out_dtype=None, floating=False):
+        def f(interp, args, kw, node, out_dtype=out_dtype):
+            if len(args) > 1 or any(k in kw for k in ('out', 'where', 'dtype', 'casting')):
+                raise AnalysisError('ufunc called with out= / where= / dtype= not modelled', node)
             v = args[0]
             vv = as_vec(interp, v, node)
+            if floating and out_dtype is None:
+                # library fact: sqrt / floor / ceil / trunc / rint / fabs of an integer or boolean array are float64 (datetimes are refused)
+                src = vv.dtype if vv is not None else (v.dtype if isinstance(v, Sc) else None)
+                if src in ('i8', 'u1', 'b1'):
+                    out_dtype = 'f8'
+                elif src in ('M8', 'm8', 'O'):
+                    raise AnalysisError(f'floating-point ufunc on dtype {src} not modelled', node)
             if vv is None:
                 o = as_operand(v)
                 if o is None:
@@ -1194,7 +1231,8 @@ def register(M):
             return res
         return f
 
-    E['numpy.abs'] = E['numpy.absolute'] = E['numpy.fabs'] = unary_ufunc(X.abs_)
+    E['numpy.abs'] = E['numpy.absolute'] = unary_ufunc(X.abs_)
+    E['numpy.fabs'] = unary_ufunc(X.abs_, floating=True)
     E['numpy.ma.abs'] = E['numpy.ma.absolute'] = E['numpy.ma.abs_operator'] = unary_ufunc(X.abs_, ma_operator=True)
     E['numpy.sign'] = unary_ufunc(X.sign)
     E['numpy.negative'] = unary_ufunc(X.neg)
@@ -1206,11 +1244,19 @@ def register(M):
                 return d
             return X.fn(name, d)
         return f
-    E['numpy.rint'] = E['numpy.round'] = E['numpy.around'] = E['numpy.round_'] = unary_ufunc(_rounder(lambda v: Fr(round(v)), 'rint'))
-    E['numpy.floor'] = unary_ufunc(_rounder(floor_fr, 'floor'))
-    E['numpy.ceil'] = unary_ufunc(_rounder(lambda v: Fr(math.ceil(v)), 'ceil'))
-    E['numpy.trunc'] = E['numpy.fix'] = unary_ufunc(_rounder(trunc_fr, 'trunc'))
-    E['numpy.sqrt'] = unary_ufunc(lambda d: X.fn('sqrt', d) if not (X.is_num(d) and d[1] in (0, 1)) else d)
+    E['numpy.rint'] = unary_ufunc(_rounder(lambda v: Fr(round(v)), 'rint'), floating=True)
+    _round0 = unary_ufunc(_rounder(lambda v: Fr(round(v)), 'rint'))
+    def _round(interp, args, kw, node):
+        # np.round(x) / np.around(x): to zero decimals only (a `decimals` argument is refused); integers stay integers
+        dec = kwarg(args, kw, 1, 'decimals', 0)
+        if dec != 0 or 'out' in kw:
+            raise AnalysisError('np.round(decimals != 0) not modelled', node)
+        return _round0(interp, args[:1], {}, node)
+    E['numpy.round'] = E['numpy.around'] = E['numpy.round_'] = _round
+    E['numpy.floor'] = unary_ufunc(_rounder(floor_fr, 'floor'), floating=True)
+    E['numpy.ceil'] = unary_ufunc(_rounder(lambda v: Fr(math.ceil(v)), 'ceil'), floating=True)
+    E['numpy.trunc'] = E['numpy.fix'] = unary_ufunc(_rounder(trunc_fr, 'trunc'), floating=True)
+    E['numpy.sqrt'] = unary_ufunc(lambda d: X.fn('sqrt', d) if not (X.is_num(d) and d[1] in (0, 1)) else d, floating=True)
     E['numpy.square'] = unary_ufunc(lambda d: X.mul(d, d))
     E['numpy.isnan'] = unary_ufunc(lambda d: X.TRUE if d == X.NAN else (X.UNK if d == X.ANY else X.FALSE), out_dtype='b1')
     E['numpy.isfinite'] = unary_ufunc(lambda d: X.FALSE if d == X.NAN else (X.UNK if d == X.ANY else X.TRUE), out_dtype='b1')
@@ -1294,10 +1340,21 @@ def register(M):
         f = binary_ufunc(lambda x, y: X.cmp('le', X.abs_(X.sub(x, y)), X.add(num_of_el(ao[1]), X.scale(X.abs_(y), rtol))), out_dtype='b1')
         return f(interp, args[:2], {}, node)
 
-    E['numpy.greater'] = binary_ufunc(lambda x, y: X.cmp('gt', x, y), out_dtype='b1')
-    E['numpy.less'] = binary_ufunc(lambda x, y: X.cmp('lt', x, y), out_dtype='b1')
-    E['numpy.greater_equal'] = binary_ufunc(lambda x, y: X.cmp('ge', x, y), out_dtype='b1')
-    E['numpy.less_equal'] = binary_ufunc(lambda x, y: X.cmp('le', x, y), out_dtype='b1')
+    def cmp_ufunc(op):
+        """np.less(a, b) ...: the ordering comparisons are the ufuncs the operators call (the same events are recorded: what observations are
+        compared with is a structural obligation of the decision rules); lists are converted first"""
+        def f(interp, args, kw, node):
+            if len(args) != 2 or kw:
+                raise AnalysisError('comparison ufunc with out= / where= not modelled', node)
+            a, b = (as_vec(interp, x, node) or x for x in args)
+            if not any(isinstance(x, (Vec, Sc)) for x in (a, b)):
+                raise AnalysisError('comparison ufunc on plain Python values not modelled', node)
+            return M.compare(interp, op, a, b, node)
+        return f
+    E['numpy.greater'] = cmp_ufunc('Gt')
+    E['numpy.less'] = cmp_ufunc('Lt')
+    E['numpy.greater_equal'] = cmp_ufunc('GtE')
+    E['numpy.less_equal'] = cmp_ufunc('LtE')
 
     @ext('numpy.ma.filled')
     def _ma_filled(interp, args, kw, node):
@@ -1369,6 +1426,8 @@ def register(M):
 
     @ext('numpy.concatenate', 'numpy.hstack', 'numpy.append')
     def _concat(interp, args, kw, node):
+        if kw.get('axis', 0) not in (None, 0, -1) or kw.get('out') is not None or kw.get('dtype') is not None or 'casting' in kw:
+            raise AnalysisError('np.concatenate(axis= / out= / dtype=) beyond the 1-d default not modelled', node)
         parts = args[0] if len(args) == 1 else args
         parts = list(interp.iterate(parts, node)) if not isinstance(parts, (list, tuple)) else list(parts)
         if any(isinstance(p, IndexSet) for p in parts):
@@ -1601,11 +1660,22 @@ def register(M):
         return Vec.fresh(out, kind='ma', dtype=dt)
 
     @ext('numpy.errstate')
+    def _fp_modes(kw, node, what):
+        # floating-point error modes: 'ignore' / 'warn' / 'print' / 'log' only change what is reported; 'raise' / 'call' change control flow
+        for k, v in kw.items():
+            if k not in ('all', 'divide', 'over', 'under', 'invalid'):
+                raise AnalysisError(f'{what}({k}=) not modelled', node)
+            if v not in (None, 'ignore', 'warn', 'print', 'log'):
+                raise AnalysisError(f'{what}({k}={v!r}) turns floating-point conditions into exceptions: not modelled', node)
+
+    @ext('numpy.errstate')
     def _errstate(interp, args, kw, node):
+        _fp_modes(kw, node, 'np.errstate')
         return ContextMgr()
 
     @ext('numpy.seterr')
     def _seterr(interp, args, kw, node):
+        _fp_modes(kw, node, 'np.seterr')
         return {}
 
     @ext('numpy.issubdtype')
